@@ -29,6 +29,10 @@ CLAIMS.update({
    text="Partial. Deductive proof of the local links of the failure-flag chain in the parser: the handler wrapper installed by newParser raises errored exactly for error-level diagnostics and forwards every diagnostic once; errored is written nowhere else in the package (syntactic frame obligation over the SSA); parse() ends with Ast.Faulty == errored (so nothing that can still report runs after the flag is copied); errVal delivers the first error and suppresses follow-ups in panic mode; warn never counts as failure. Range validity, the renderer and the CLI exit status are not yet under contract.",
    note="Trusted: model of a diagnostic-handler call (counts as delivered; may raise only the errored flag of the parser whose wrapper it is); the handler given to newParser is not that parser's own wrapper; deferred panic wrappers are not executed (recover unmodelled).",
    ref="6/C07"),
+ "C13": dict(
+   text="Partial (in progress). Deductive proof of the scanner's cursor primitives against a code-point model of the source (validA/runeA/widthA over the byte array): atEnd, peek, peekNext (two code points of lookahead, exactly), advance (moves by exactly one code point, column+1, stays on a boundary), with panic-freedom of every slice expression.",
+   note="Trusted: contracts of utf8.DecodeRune/Valid/RuneCountInString (well-formed UTF-8 model: valid_step, valid_ascii axioms), immutability of the source text.",
+   ref="6/C13"),
 })
 NA = {
  "C08": "relational whole-program property (no holder observes another holder's mutation); no function contract within reach states it; the local copy/claim mechanics are covered under C05/C18 where claimed",
